@@ -23,7 +23,7 @@ BOUNDS = {"quick": {"vertices": 3, "links": 2}, "thorough": {"vertices": 3, "lin
 TIME_BUDGET = {"quick": 300, "thorough": 2400}
 STUBS = ["rfunc -> uninterpreted function Vertex -> String (unbounded)", "sort -> uninterpreted injective function Vertex -> Int",
          "repr(vertex) -> distinct opaque text per object"]
-ASSUMPTIONS = ["sort keys pairwise distinct", "rfunc returns strings and is pure", "links are directed / undirected edges (defaults of neighbors())"]
+ASSUMPTIONS = ["sort keys pairwise distinct", "rfunc labels do not start with '<' (they cannot be confused with a default repr)", "rfunc returns strings and is pure", "links are directed / undirected edges (defaults of neighbors())"]
 EXPLANATION = "real renderer vs reference text in the theory of strings, labels unbounded"
 
 
@@ -86,6 +86,12 @@ def scenario(B, p):
     B.set_field(uni, "_vertices", B.reflist("U.members", verts, 3, 3))
     B.assume(B.nodup(B.get_field(uni, "_vertices")), "members distinct")
     rf = B.uf("rfunc", [verts], "str") if p["rfunc"] == "uf" else None
+    if rf is not None:
+        # labels that look like a default repr ('<... object at 0x...>') are excluded: pysym's and CPython's
+        # default reprs differ in the address, which would make such a label mean different things in the replay
+        for v in verts:
+            lab = B.run("k = f(v)", {"f": rf, "v": v})["k"]
+            B.assume(B.not_(B.str_startswith(lab, "<")), "labels do not start with '<'")
     so = None
     if p["sort"] == "uf":
         so = B.uf("sortkey", [verts], "int")
